@@ -52,4 +52,8 @@ def run(c):
         c.break_("corr", "c04corr harness run failed", out)
         return
     files = [l.split(" ", 1)[1] for l in out.splitlines() if l.startswith("CASEFILE ")]
+    kinds = set(f.rsplit("/", 1)[-1].split("_")[1] for f in files)
+    if not {"build", "e2e", "recv"} <= kinds:
+        c.break_("corr", "c04corr produced no case files for some family (got: %s)" % sorted(kinds), out)
+        return
     c.eval_cases(files, name="producer request / success correspondence")
